@@ -387,6 +387,65 @@ def read_sessions(tier, seed):
             ast, text = Gen(rng).query()
             cases.append({"cid": c + 1, "kind": "read", "query": text, "meta": {"ast": ast, "flavour": flavour}})
         sessions.append({"id": "read/%d" % g, "setup": setup, "dump": True, "cases": cases})
+    sessions += varlen_sessions(tier)
+    return sessions
+
+
+# variable-length patterns between endpoints that are already bound, on graphs whose end nodes lie on cycles / carry self
+# loops / have parallel relationships (one row per distinct trail, also the trails that pass through the end node)
+VARLEN_GRAPHS = [
+    ["CREATE (a:A {p: 1})-[:R]->(b:B {p: 2})-[:R]->(c:A {p: 3})-[:R]->(b), (a)-[:S]->(d:B {p: 4}), (d)-[:R]->(d)"],
+    ["CREATE (a:A {p: 1})-[:R]->(b:B {p: 2}), (a)-[:R]->(b), (b)-[:R]->(a), (b)-[:S]->(b)"],
+    ["CREATE (a:A {p: 1})-[:R]->(b:A {p: 2})-[:R]->(c:B {p: 3})-[:R]->(a), (c)-[:S]->(c)", "#compact",
+     "MATCH (x), (y) WHERE id(x) = 1 AND id(y) = 0 CREATE (x)-[:R]->(y)"],
+]
+
+
+def varlen_sessions(tier):
+    def node(v, labels=()):
+        return {"v": v, "labels": list(labels), "props": []}
+
+    def single(v, labels=()):
+        return {"nodes": [node(v, labels)], "rels": []}
+
+    def ntxt(v, labels=()):
+        return "(%s%s)" % (v, "".join(":" + l for l in labels))
+
+    def rtxt(types, d, lo, hi):
+        inner = (":" + "|".join(types) if types else "") + "*%d..%d" % (lo, hi)
+        t = "-[%s]-" % inner
+        return t + ">" if d == "out" else ("<" + t if d == "in" else t)
+
+    count = ["agg", "count*", False, ["lit", ["null"]]]
+    sessions = []
+    bounds = [(1, 2), (1, 3), (2, 3)] if tier == "quick" else [(1, 2), (1, 3), (2, 3), (2, 2), (1, 4), (3, 4)]
+    for gi, setup in enumerate(VARLEN_GRAPHS):
+        cases, cid = [], 0
+        for (lo, hi) in bounds:
+            for types in ([], ["R"]):
+                for d in ("out", "in", "both"):
+                    rel = {"v": "", "types": types, "dir": d, "lo": lo, "hi": hi}
+                    shapes = []
+                    # both endpoints bound by an earlier MATCH
+                    shapes.append(([{"t": "match", "opt": False, "pats": [single("x"), single("y")], "where": ["none"]},
+                                    {"t": "match", "opt": False, "pats": [{"nodes": [node("x"), node("y")], "rels": [rel]}], "where": ["none"]}],
+                                   "MATCH (x), (y) MATCH (x)%s(y)" % rtxt(types, d, lo, hi), ["x", "y"]))
+                    # a trail back to its start
+                    shapes.append(([{"t": "match", "opt": False, "pats": [{"nodes": [node("x"), node("x")], "rels": [rel]}], "where": ["none"]}],
+                                   "MATCH (x)%s(x)" % rtxt(types, d, lo, hi), ["x"]))
+                    # endpoints bound by a fixed-length hop, labels on the first MATCH
+                    one = {"v": "r", "types": [], "dir": "out", "lo": 1, "hi": 1}
+                    shapes.append(([{"t": "match", "opt": False, "pats": [{"nodes": [node("x", ["A"]), node("y")], "rels": [one]}], "where": ["none"]},
+                                    {"t": "match", "opt": False, "pats": [{"nodes": [node("y"), node("x")], "rels": [rel]}], "where": ["none"]}],
+                                   "MATCH (x:A)-[r]->(y) MATCH (y)%s(x)" % rtxt(types, d, lo, hi), ["x", "y"]))
+                    for parts, text, keys in shapes:
+                        items = [{"e": ["id", ["var", k]], "as": "c%d" % (i + 1)} for i, k in enumerate(keys)]
+                        items.append({"e": count, "as": "n"})
+                        ret = {"distinct": False, "items": items, "order": [], "skip": -1, "limit": -1}
+                        q = text + " RETURN " + ", ".join("id(%s) AS c%d" % (k, i + 1) for i, k in enumerate(keys)) + ", count(*) AS n"
+                        cid += 1
+                        cases.append({"cid": cid, "kind": "read", "query": q, "meta": {"ast": {"parts": parts, "ret": ret}, "flavour": "varlen-bound"}})
+        sessions.append({"id": "read/varlen/%d" % gi, "setup": setup, "dump": True, "cases": cases})
     return sessions
 
 
